@@ -112,6 +112,20 @@ def gen_source(rng, size, kind):
         for _ in range(rng.choice([0, 3, 20, 100])):
             d[rng.randrange(size)] = rng.randrange(256)
         return bytes(d)
+    if kind == "utf8":            # VBA text whose non-ASCII bytes happen to form valid UTF-8 (e.g. a
+        out = bytearray()         # mojibake-repair macro holding "Ã©"): still to be decoded with the
+        while len(out) < size:    # project's code page, byte by byte
+            if rng.random() < 0.6:
+                out += rng.choice(KEYWORDS)
+            else:
+                out += rng.choice(["é", "è", "ü", "ß", "Ω", "ж", "€", "—", "日本", "😀"]).encode("utf-8")
+        out = out[:size]
+        while out:                # do not end inside a multi-byte sequence
+            try:
+                out.decode("utf-8"); break
+            except UnicodeDecodeError:
+                out = out[:-1]
+        return bytes(out) or b"x"
     # "vba": text-like
     out = bytearray()
     while len(out) < size:
@@ -753,7 +767,7 @@ def gen_project(rng, pid, tier, single_byte_only=False):
         pcode = bytes(rng.randrange(256) for _ in range(rng.choice([0, 1, 7, 100, 900, 3000, 5000])))
         nch = rng.choice([0, 1, 1, 1, 2, 3]) if tier == "thorough" else rng.choice([0, 1, 1, 1, 2])
         chunks, source = [], bytearray()
-        kind = rng.choice(["vba", "vba", "period", "alpha", "random"])
+        kind = rng.choice(["vba", "vba", "period", "alpha", "random", "utf8"])
         for ci in range(nch):
             last = ci == nch - 1
             size = rng.choice([1, 8, 40, 300, 1200, 4096]) if last else CHUNK
